@@ -23,6 +23,8 @@ HASHES = {
     'SHA-512': 'cf83e1357eefb8bdf1542850d66d8007d620e4050b5715dc83f4a921d36ce9ce47d0d13c5d85f2b0ff8318d2877eec2f63b931bd47417a81a538327af927da3e',
     'SHA3-256': 'a7ffc6f8bf1ed76651c14756a061d662f580ff4de43b49fa82d80a4b80f8434a',
     'SSDEEP': '3:AXGBicFlgVNhBGcL6wCrFQEv:AXGHsNhxLsr2C',
+    'SHA3-512': 'a69f73cca23a9ac5c8b567dc185a756e97c982164fe25859e0d1dcc1475c80a615b2123af1f5f94c11e3e9402c3ac558f500199d95b6d3e301758586281dcd26',
+    'TLSH': '6FF02BEF718027B0160B4391212923ED7F1A463D563B1549B86CF62973B197AD2731F8',
 }
 STR = ['a', 'foo.exe', 'tab\there', 'quote"s', 'back\\slash', 'line\nfeed', 'cr\rret', 'bell\u0007', 'nul\u0000x', 'del\u007f', 'é', 'ß→∑',
        '\U0001F600 astral', '\ud7ff\ue000', 'solidus/', ' lead', 'trail ', '', '0', 'null', '<>&', '\u2028\u2029', 'x' * 200]
@@ -39,14 +41,18 @@ def pick_str(rng):
     return rng.choice(STR) + (str(rng.randrange(100)) if rng.random() < 0.5 else '')
 
 
+NONPREF = ['SHA3-256', 'SSDEEP', 'SHA3-512', 'TLSH']
+
+
 def gen_hashes(rng):
     r = rng.random()
-    if r < 0.2:
-        algs = [rng.choice(['SHA3-256', 'SSDEEP'])]      # only one non-preferred hash: "else first" is unambiguous
+    if r < 0.15:
+        algs = [rng.choice(NONPREF)]      # only one non-preferred hash: "else first" is unambiguous
+    elif r < 0.3:
+        # several non-preferred hashes: "first" = first in the order given; the harness never reorders this dictionary
+        algs = rng.sample(NONPREF, rng.randrange(2, 5))
     else:
         algs = rng.sample(sorted(HASHES), rng.randrange(1, 5))
-        if not any(a in PREF for a in algs):
-            algs = algs[:1]
     return {a: HASHES[a] for a in algs}
 
 
@@ -171,11 +177,14 @@ def expected_canonical(item):
     return jcs.canonical(obj) if obj else None
 
 
-def shuffle_rec(v, rng):
+def shuffle_rec(v, rng, keep=('hashes',)):
+    """Recursively shuffled key order; the `hashes` dictionary keeps its order when no preferred algorithm is in it
+    ("else first" is defined by that order)."""
     if isinstance(v, dict):
         keys = list(v)
         rng.shuffle(keys)
-        return {k: shuffle_rec(v[k], rng) for k in keys}
+        return {k: (dict(v[k]) if k in keep and isinstance(v[k], dict) and not any(a in PREF for a in v[k]) else shuffle_rec(v[k], rng, keep))
+                for k in keys}
     if isinstance(v, list):
         return [shuffle_rec(x, rng) for x in v]
     return v
@@ -186,7 +195,7 @@ class C06(Profile):
     owns_registries = True
     tiers = {'quick': 4000, 'thorough': 200000}
     wall_cap = {'quick': 900, 'thorough': 5 * 3600}
-    probes = ['no_contributing_property_v4', 'hash_preference_applied', 'non_preferred_single_hash', 'extension_with_float', 'custom_observable',
+    probes = ['no_contributing_property_v4', 'hash_preference_applied', 'non_preferred_single_hash', 'non_preferred_several_hashes_first_wins', 'extension_with_float', 'custom_observable',
               'equal_contrib_different_noncontrib', 'near_miss_different_id', 'string_needing_escape', 'astral_or_bmp_boundary',
               'route_bundle_member', 'route_memory_store', 'uuid4_stream_differs']
     rule = ('plans: 6-14 items (a 2.1 observable type incl. two registered custom observables, contributing and non-contributing values with '
@@ -197,7 +206,7 @@ class C06(Profile):
     state_measure = 'distinct (type, set of contributing properties present, route, uuid4-stream, clock mode) tuples'
     assumptions = ['jcs.py (own RFC 8785 writer, checked against the RFC vectors) and hashlib.sha1 are correct',
                    'frozen per-type contributing-property lists follow the specification; software.languages is never generated',
-                   'when only non-preferred hash algorithms are present exactly one is generated ("else first" is otherwise order dependent)']
+                   'when only non-preferred hash algorithms are present, "else first" means first in the order the caller gave; the harness never reorders such a hashes dictionary']
     components = dict(COMPONENTS_COMMON, real=COMPONENTS_COMMON['real'] + ['stix2.base._Observable._generate_id', 'stix2.canonicalization', 'stix2.v21.observables', 'stix2.custom'],
                       simulated=COMPONENTS_COMMON['simulated'] + ['uuid4 stream per construction', 'argument / dictionary order', 'construction route'])
 
@@ -352,7 +361,8 @@ class C06(Profile):
         if t.startswith('x-sim'):
             world.probe('custom_observable')
         if 'hashes' in it['c']:
-            world.probe('hash_preference_applied' if any(a in PREF for a in it['c']['hashes']) else 'non_preferred_single_hash')
+            world.probe('hash_preference_applied' if any(a in PREF for a in it['c']['hashes']) else
+                        'non_preferred_single_hash' if len(it['c']['hashes']) == 1 else 'non_preferred_several_hashes_first_wins')
         if 'windows-pebinary-ext' in (it['c'].get('extensions') or {}):
             world.probe('extension_with_float')
         prefix = t + '--'
